@@ -469,6 +469,12 @@ func (g *gen) iface(name string, shared *embed, extra []string) (string, Iface) 
 		taken["Stat"], taken["ResetStats"] = true, true
 		out.Methods += 2
 	}
+	if g.tp.Int(5) == 0 && !taken["Read"] {
+		// io.Reader / io.Writer shaped methods (a byte buffer in, (int, error) out)
+		fmt.Fprintf(&b, "\t%s\n", g.pick([]string{"Read(p []byte) (int, error)", "Write(p []byte) (n int, err error)", "ReadAt(p []byte, off int64) (int, error)", "Read(buf []byte) (n int, err error)"}))
+		taken["Read"], taken["Write"], taken["ReadAt"] = true, true, true
+		out.Methods++
+	}
 	if g.tp.Int(3) == 0 && !taken["Watch"] {
 		// parameters named like locals a generated body might want to declare
 		pool := []string{"fn", "f", "ok", "v", "ret", "res", "result", "zero", "args", "out", "calls", "lock", "m", "i", "s", "x", "tmp", "buf", "info", "c"}
